@@ -39,6 +39,27 @@ CLAIMED = {
             "scheduled harness exists.",
             "model-based property testing (canonical tree model, allocator accounting, metamorphic reload)",
             "5 C10"),
+    "C11": ("enc", "exploration",
+            "Order embedding decided exhaustively for every 8/16/32-bit integer type and for float (successor "
+            "chains over all values: strict order along a total chain implies order embedding), exhaustively for "
+            "all pairs of small texts, and by generated structured/random pairs of tuples for 64-bit integers, "
+            "double, long texts and multi-component keys.",
+            "Trusted: the oracle's restatement of the total orders (comparison operators, libm nextafter, "
+            "std::string compare). 64-bit and double domains are sampled, not enumerated.",
+            "exhaustive successor chains + property-based pair testing against the stated total order", "5 C11"),
+    "C12": ("enc", "exploration",
+            "Round trip and component size decided exhaustively for all 8/16/32-bit integers and all 2^32 float bit "
+            "patterns; generated component sequences up to 200 components (crossing the 256-byte internal buffer "
+            "several times) compare a fresh encoder with a reused, grown one and decode leading fixed-size "
+            "components in order.",
+            "Trusted: bit-pattern equality oracle; text components are not decodable by design and end the decoded "
+            "prefix.", "exhaustive round trip + property-based sequence testing (fresh vs reused encoder)", "5 C12"),
+    "C15": ("enc", "exploration",
+            "Prefix freedom and equality-iff-normalised-equality decided exhaustively on all pairs of small texts and "
+            "by generated tuples of equal schema (texts in any position, around and beyond maxlen); read bound by a "
+            "guard page placed directly after maxlen bytes; size bound len+3 asserted on every text.",
+            "Trusted: normalisation oracle (truncate to maxlen, strip trailing zeros, NaNs unified, -0 != +0).",
+            "property-based pair testing with prefix/equality oracle + guard-page fault injection", "5 C15"),
 }
 
 PENDING_REASON = ("not claimed yet: the harness for this property is designed in DESIGN.md but not built at this "
@@ -86,6 +107,9 @@ def main():
              "kind_free_text": "in-house property-based tester: seeded structured generators of operation "
                                "histories, interpreter with map / canonical-radix-tree models, fork-isolated "
                                "delta-debugging shrinker, text replay files; built with ASan+UBSan+assertions"},
+            {"name": "enc", "path": "src/enc", "serves_properties": ["C11", "C12", "C15"],
+             "kind_free_text": "exhaustive chain enumerator (optimised build) + seeded generator of component tuples "
+                               "with value shrinking (ASan+UBSan build); oracle restates the documented total order"},
         ],
         "checks": checks,
         "notes": "All checks: python3 check.py <id> --tier quick|thorough; VERIF_SEED is honoured (every run is a "
